@@ -61,6 +61,7 @@ type Node struct {
 	L      []*Node `json:"l,omitempty"`
 	IsList bool    `json:"list,omitempty"`
 	Rep    int     `json:"rep,omitempty"`
+	Nest   int     `json:"nest,omitempty"` // the item is wrapped in this many single-element lists (deep nesting stays flat in JSON)
 	Rnd    int     `json:"rnd,omitempty"`
 	Seed   uint64  `json:"seed,omitempty"`
 	Fill   int     `json:"fill,omitempty"`
@@ -69,6 +70,27 @@ type Node struct {
 	// time plus this offset (the only wall-clock coupled input: handleTxsMsg compares the
 	// expiration of received transactions with time.Now).
 	NowPlus *int64 `json:"nowplus,omitempty"`
+	// Ctr: an unsigned integer item whose value is Ctr-1 plus the repetition index of the
+	// message it is sent in (Msg.Rep): lets a compact case send thousands of distinct messages.
+	Ctr uint64 `json:"ctr,omitempty"`
+}
+
+// repIndex is the repetition index used for Ctr items while a payload is encoded.
+var repIndex uint64
+
+func (n *Node) hasCtr() bool {
+	if n == nil {
+		return false
+	}
+	if n.Ctr > 0 {
+		return true
+	}
+	for _, ch := range n.L {
+		if ch.hasCtr() {
+			return true
+		}
+	}
+	return false
 }
 
 func nB(b []byte) *Node     { return &Node{B: hex.EncodeToString(b)} }
@@ -119,6 +141,15 @@ func rlpHead(base byte, n int) []byte {
 
 // enc encodes one occurrence of the node (Rep is applied by the parent).
 func (n *Node) enc() []byte {
+	if n.Nest > 0 {
+		c := *n
+		c.Nest = 0
+		b := c.enc()
+		for i := 0; i < n.Nest; i++ {
+			b = append(rlpHead(0xc0, len(b)), b...)
+		}
+		return b
+	}
 	if n.isList() {
 		var body []byte
 		for _, ch := range n.L {
@@ -135,6 +166,8 @@ func (n *Node) enc() []byte {
 	}
 	var b []byte
 	switch {
+	case n.Ctr > 0:
+		return nU(n.Ctr - 1 + repIndex).enc()
 	case n.NowPlus != nil:
 		v := time.Now().Unix() + *n.NowPlus
 		if v < 0 {
@@ -229,6 +262,15 @@ type Payload struct {
 	Cut  int   `json:"cut,omitempty"` // drop this many trailing bytes of the encoding
 	Raw  []Seg `json:"raw,omitempty"`
 }
+
+// bytesAt encodes the payload for repetition i (only payloads with Ctr items differ).
+func (p *Payload) bytesAt(i int) []byte {
+	repIndex = uint64(i)
+	defer func() { repIndex = 0 }()
+	return p.bytes()
+}
+
+func (p *Payload) varies() bool { return p != nil && p.Tree.hasCtr() }
 
 func (p *Payload) bytes() []byte {
 	if p == nil {
